@@ -26,7 +26,8 @@ THEOREMS = {
     "C17": ["C17_requests", "C17_index_requests", "C17_record_requests"],
     "C08": ["C08_rejected_call", "C08_history", "C08_pairs", "C08_pairs_spec", "C08_files_of_two_shapefiles_disjoint",
             "C08_three_files", "C08_missing_dbf", "C08_open_after_write"],
-    "C20": ["C20_to_geo", "C20_polygon_grouping", "C20_back", "C20_from_geo", "C20_refusals", "C20_dims"],
+    "C20": ["C20_to_geo", "C20_polygon_grouping", "C20_back", "C20_from_geo", "C20_refusals", "C20_dims", "C20_polygon_back",
+            "C20_multipolygon_from_geo", "C20_polygon_from_geo"],
     "C03": ["C03_record", "C03_decodes_conformant"],
     "C09": ["C09_finalize_irrelevant", "C09_files", "C09_finalize_complete", "C09_clean_finalize_silent", "C09_bulk_ending"],
     "C10": ["C10_reject", "C10_erase", "C10_bulk_is_calls"],
@@ -41,7 +42,7 @@ THEOREMS = {
 FLOCQ = set(STDLIB_AXIOMS_ALLOWED)
 AXIOMS = {"C16_test_is_exact_sign": FLOCQ, "C16_orientation_exact": FLOCQ, "C16_idempotent_exact": FLOCQ, "C01_roles_kept": FLOCQ,
           "C20_to_geo": FLOCQ, "C20_polygon_grouping": FLOCQ, "C20_back": FLOCQ, "C20_from_geo": FLOCQ, "C20_refusals": FLOCQ,
-          "C20_dims": FLOCQ,
+          "C20_dims": FLOCQ, "C20_polygon_back": FLOCQ, "C20_multipolygon_from_geo": FLOCQ, "C20_polygon_from_geo": FLOCQ,
           "C08_pairs": FLOCQ,
           "C17_requests": FLOCQ, "C17_index_requests": FLOCQ, "C17_record_requests": FLOCQ,
           "C16_rings": FLOCQ, "C16_vertices": FLOCQ, "C16_closed": FLOCQ, "C16_orientation": FLOCQ, "C16_idempotent": FLOCQ,
